@@ -12,6 +12,9 @@ import Fir.Proofs.FixedLemmas
 import Fir.Model.SimdAlpha
 import Fir.Generated.Alpha
 import Fir.Generated.SimdAlpha
+import Fir.Proofs.SimdDiv16Lemmas
+import Fir.Proofs.FloatLemmas
+import Fir.Props.C06
 
 namespace Fir.C02
 open Fir
@@ -69,6 +72,70 @@ theorem simd_div8_eq (c a : Nat) (hc : c < 256) (ha : a < 256) :
   have h2 := h a (List.mem_range.mpr ha)
   rw [List.all_eq_true] at h2
   simpa using h2 c (List.mem_range.mpr hc)
+
+
+/-! ### the SSE4.1 / AVX2 16-bit alpha divide (two binary32 roundings, `min_ps`, zero mask, `cvtps_epi32`) -/
+
+/-- the lane `cvtps_epi32(min_ps(div_ps(mul_ps(c, 65535.0), a), 65535.0))` is faithful and saturating for
+    all 2^32 (colour, alpha) pairs with alpha > 0, under the standard model of binary32 rounding
+    (`s`, `q`: the rounded product and quotient, relative error ≤ 2^-24 each; `n`: any integer nearest
+    to the saturated quotient, as `cvtps_epi32` returns) -/
+theorem simd_div16_faithful (c a : Nat) (hc : c < 65536) (ha0 : 0 < a) (ha : a < 65536) (s q : ℚ) (n : ℤ)
+    (hs : |s - (c : ℚ) * 65535| ≤ 1 / 2 ^ 24 * |(c : ℚ) * 65535|)
+    (hq : |q - s / a| ≤ 1 / 2 ^ 24 * |s / a|)
+    (hn : |(n : ℚ) - min q 65535| ≤ 1 / 2) :
+    0 ≤ n ∧ Fir.Spec.divFaithful 65535 c a n.toNat :=
+  Fir.Proofs.simd_div16_lane_faithful c a hc ha0 ha s q n hs hq hn
+
+/-- hence the SIMD lane and the portable (translated) `div_and_clip16` differ by at most one unit - the
+    exception C02 grants for 16-bit alpha division - for every colour and every alpha > 0; for alpha = 0
+    both give 0 (the lane is masked with `cmpneq_ps`, the table entry is 0) -/
+theorem simd_div16_within_one (c a : Nat) (hc : c < 65536) (ha0 : 0 < a) (ha : a < 65536) (s q : ℚ) (n : ℤ)
+    (hs : |s - (c : ℚ) * 65535| ≤ 1 / 2 ^ 24 * |(c : ℚ) * 65535|)
+    (hq : |q - s / a| ≤ 1 / 2 ^ 24 * |s / a|)
+    (hn : |(n : ℚ) - min q 65535| ≤ 1 / 2) :
+    let portable := Fir.Gen.div_and_clip16 c (Fir.Gen.recip_alpha16 a)
+    (n.toNat : ℤ) - portable ≤ 1 ∧ (portable : ℤ) - n.toNat ≤ 1 :=
+  Fir.Proofs.faithful_within_one 65535 c a _ _
+    (Fir.Proofs.simd_div16_lane_faithful c a hc ha0 ha s q n hs hq hn).2 (Fir.C06.div16_faithful c a hc ha)
+
+/-- the executable lane model used by the correspondence check gives 0 for alpha = 0 -/
+theorem simd_div16_zero_alpha (c : Nat) : Fir.Simd.simdDiv16 c 0 = 0 := by simp [Fir.Simd.simdDiv16]
+
+/-- the four 16-bit SIMD divide lanes are the ones the theorem was written against: one `mul_ps` by
+    65535.0, one `div_ps`, `min_ps`, the `cmpneq_ps` zero mask and `cvtps_epi32` per vector, nothing else
+    (multiset of arithmetic intrinsics re-extracted from the source on every run) -/
+theorem simd_div16_source_as_modelled : Fir.Gen.simdDiv16Skeleton = [
+  ("src/alpha/u16x2/sse4.rs::divide_alpha_4_pixels", "set1_ps(65535.0) and_ps cmpneq_ps cvtepi32_ps cvtepi32_ps cvtps_epi32 div_ps min_ps mul_ps"),
+  ("src/alpha/u16x2/avx2.rs::divide_alpha_8_pixels", "set1_ps(65535.0) and_ps cmpneq_ps cvtepi32_ps cvtepi32_ps cvtps_epi32 div_ps min_ps mul_ps"),
+  ("src/alpha/u16x4/sse4.rs::divide_alpha_2_pixels", "set1_ps(65535.0) and_ps and_ps cmpneq_ps cmpneq_ps cvtepi32_ps cvtepi32_ps cvtepi32_ps cvtepi32_ps cvtps_epi32 cvtps_epi32 div_ps div_ps min_ps min_ps mul_ps mul_ps packus_epi32"),
+  ("src/alpha/u16x4/avx2.rs::divide_alpha_4_pixels", "set1_ps(65535.0) and_ps and_ps cmpneq_ps cmpneq_ps cvtepi32_ps cvtepi32_ps cvtepi32_ps cvtepi32_ps cvtps_epi32 cvtps_epi32 div_ps div_ps min_ps min_ps mul_ps mul_ps packus_epi32")] := by rfl
+
+/-! ### float formats: a re-associated f64 sum -/
+
+open Fir.Flt in
+/-- I32 / F32 kernels accumulate rounded products in f64: the portable kernel as a left comb, the SIMD
+    kernels in two or four lanes joined by a horizontal add.  Any two such summation orders over the same
+    products differ by at most `(γ(d) + γ(d'))·Σ|xᵢkᵢ|`, `γ(d) = (1+u)^(d+1) − 1`, for every rounding with
+    relative error `u` (2^-53 for binary64) - "the f32 rounding of a re-associated f64 sum" -/
+theorem reassoc_err (fl : ℚ → ℚ) (u : ℚ) (hu : 0 ≤ u) (hfl : RelErr fl u) (x k : ℕ → ℚ) (t t' : Shape)
+    (hperm : t.leaves.Perm t'.leaves) :
+    |t.eval fl x k - t'.eval fl x k| ≤ (gam u t.depth + gam u t'.depth) * t.absSum x k :=
+  Fir.Flt.reassoc_err fl u hu hfl x k t t' hperm
+
+open Fir.Flt in
+/-- the portable loop `ss = 0.0; ss += x as f64 * k` *is* such a tree: the left comb over the taps -/
+theorem native_loop_is_comb (fl : ℚ → ℚ) (ks xs : List ℚ) (hlen : ks.length = xs.length) (j : ℕ) (t : Shape)
+    (x k : ℕ → ℚ) (hx : ∀ i, i < xs.length → x (j + i) = xs.getD i 0) (hk : ∀ i, i < ks.length → k (j + i) = ks.getD i 0) :
+    accF fl ks xs (t.eval fl x k) = (comb ks.length j t).eval fl x k :=
+  Fir.Flt.accF_eq_comb fl ks xs hlen j t x k hx hk
+
+/-! ### non-vacuity (16-bit lane): exact values meet the rounding hypotheses; the soft-float lane agrees -/
+example : Fir.Simd.simdDiv16 300 200 = 65535 ∧ Fir.Simd.simdDiv16 1234 4321 = 18716 ∧
+    Fir.Gen.div_and_clip16 1234 (Fir.Gen.recip_alpha16 4321) = 18716 ∧ Fir.Simd.simdDiv16 40000 1 = 65535 := by decide
+example : (0 : ℤ) ≤ 3 ∧ Fir.Spec.divFaithful 65535 2 43690 (3 : ℤ).toNat :=
+  simd_div16_faithful 2 43690 (by norm_num) (by norm_num) (by norm_num) 131070 (131070 / 43690) 3
+    (by norm_num) (by norm_num) (by norm_num [abs_le])
 
 /-! ### non-vacuity -/
 example : clip8 (300 * 2 ^ 14) 14 = 255 ∧ clip8 (-5) 3 = 0 ∧ clip8 (77 * 2 ^ 12 + 5) 12 = 77 := by decide
